@@ -80,6 +80,30 @@ def fits64 (s : Text) : Bool :=
   decide (decimals s ≤ 18) &&
   decide (unscaled s ≤ 2 ^ 63 - 1)
 
+/-! ### JSON spellings of a text (RFC 8259 section 7)
+
+The same string value can be written in many ways; the ones considered here:
+every character either stands for itself or is written as `\u00XX`.  Which one
+is chosen per character is given by a mask (missing entries: unescaped). -/
+
+def hexDigit (n : Nat) : Char :=
+  match n with
+  | 0 => '0' | 1 => '1' | 2 => '2' | 3 => '3' | 4 => '4' | 5 => '5' | 6 => '6' | 7 => '7'
+  | 8 => '8' | 9 => '9' | 10 => 'a' | 11 => 'b' | 12 => 'c' | 13 => 'd' | 14 => 'e' | _ => 'f'
+
+/-- `\u00XX` for an ASCII character -/
+def uEscape (c : Char) : Text := ['\\', 'u', '0', '0', hexDigit (c.toNat / 16), hexDigit (c.toNat % 16)]
+
+/-- an ASCII character that may stand for itself inside a JSON string -/
+def jsonPlain (c : Char) : Bool := 0x20 ≤ c.toNat && c.toNat < 0x80 && c != '"' && c != '\\'
+
+def spell : List Bool → Text → Text
+  | _, [] => []
+  | m, c :: cs => (if m.headD false then uEscape c else [c]) ++ spell m.tail cs
+
+/-- `s` written as a JSON string token -/
+def jsonSpelling (mask : List Bool) (s : Text) : Text := '"' :: (spell mask s ++ ['"'])
+
 /-! ### oracles on observed results (evaluated by the driver on Go's output) -/
 
 /-- reading: accepted exactly the fitting pattern members, with their value and precision -/
